@@ -78,8 +78,9 @@ def floor_div(a, b):
     return a // b   # Python floors (also for negative a)
 
 
-def measure(kind, st):
+def measure(kind, st, now_ns=None):
     """Returns function lstat -> integer measured value."""
+    now_ns = NOW_NS if now_ns is None else now_ns
     if kind.startswith("-size"):
         u = UNITS[kind[5:]]
         return lambda s: -(-s.st_size // u)
@@ -93,7 +94,7 @@ def measure(kind, st):
         return lambda s: s.st_gid
     per = DAY if kind.endswith("time") else MIN
     which = {"a": "st_atime_ns", "m": "st_mtime_ns", "c": "st_ctime_ns"}[kind[1]]
-    return lambda s: floor_div(floor_div(NOW_NS - getattr(s, which), NS), per) if True else None
+    return lambda s: floor_div(floor_div(now_ns - getattr(s, which), NS), per)
 
 
 def args_for(kind, spec):
@@ -147,6 +148,69 @@ def worker(job):
         ents, lst = build(sb, rng, quick)
         triples = plan(rng, lst, quick)
         mine = [t for i, t in enumerate(triples) if i % nw == k]
+        evaluate(st, sb, ents, lst, mine, NOW_NS, "lib/c14.py build()")
+        if k == 0:
+            st.sample({"files": len(ents), "sizes": size_set()[:12], "triples": mine[:6]})
+    finally:
+        common.force_rmtree(sb)
+    return st
+
+
+def random_worker(job):
+    """Rounds with a random tree: log-uniform sparse sizes up to 2^63-1, random owners, random time stamps at ns resolution around a
+    random injected clock; operands at and next to every measured value plus random ones."""
+    k, rounds, seed = job
+    st = Stats()
+    for rd in range(rounds):
+        rng = common.rng_for(seed, "C14r", k * 100003 + rd)
+        sb = common.mkscratch("C14r%d" % k)
+        try:
+            d = os.path.join(sb, "d")
+            os.makedirs(d)
+            now_ns = rng.randrange(10 ** 9, 4 * 10 ** 9) * NS + rng.randrange(NS)
+            n_files = 40
+            for i in range(n_files):
+                p_ = os.path.join(d, "f%02d" % i)
+                with open(p_, "wb") as f:
+                    e = rng.uniform(0, 63)
+                    sz = min(2 ** 63 - 1, int(2 ** e) + rng.choice([-1, 0, 0, 1]))
+                    if rng.random() < 0.3:
+                        u = rng.choice([2, 512, 1 << 10, 1 << 20, 1 << 30])
+                        sz = min(2 ** 63 - 1, max(0, rng.randrange(0, 5000) * u + rng.choice([-1, 0, 1])))
+                    try:
+                        f.truncate(max(0, sz))
+                    except OSError:
+                        f.truncate(rng.randrange(0, 1 << 40))
+                os.chown(p_, rng.choice([0, 1, 2, 1000, 65534, rng.randrange(0, 2 ** 32 - 1)]), rng.choice([0, 1, 5, 65534, rng.randrange(0, 2 ** 32 - 1)]))
+                per = rng.choice([DAY, MIN])
+                age = rng.choice([rng.randrange(0, 3000) * per * NS + rng.choice([-NS, -1, 0, 1, NS, rng.randrange(per * NS)]),
+                                  rng.randrange(-3 * DAY * NS, 800 * DAY * NS)])
+                age2 = rng.randrange(-DAY * NS, 800 * DAY * NS)
+                os.utime(p_, ns=(max(0, now_ns - age2), max(0, now_ns - age)))
+                for j in range(rng.choice([0, 0, 0, 1, 3])):
+                    os.link(p_, os.path.join(d, "f%02d_l%d" % (i, j)))
+            ents = ["d"] + sorted("d/" + n for n in os.listdir(d))
+            lst = {p_: os.lstat(os.path.join(sb, p_)) for p_ in ents}
+            triples = []
+            kinds = ["-size" + s_ for s_ in ("c", "w", "b", "", "k", "M", "G")] + ["-links", "-inum", "-uid", "-gid", "-mtime", "-atime", "-mmin",
+                                                                                     "-amin", "-ctime", "-cmin"]
+            for kind in kinds:
+                f = measure(kind, lst, now_ns)
+                vals = sorted(set(f(x) for x in lst.values()))
+                ns = set()
+                for v in rng.sample(vals, min(len(vals), 10)):
+                    ns |= {v - 1, v, v + 1}
+                ns |= {0, 1, rng.randrange(0, 2 ** 64), rng.randrange(0, 2 ** 33)}
+                triples += [(kind, n) for n in sorted(ns) if 0 <= n < 2 ** 64]
+            st.inc("random_rounds")
+            evaluate(st, sb, ents, lst, triples, now_ns, "lib/c14.py random_worker seed=%r k=%d round=%d" % (seed, k, rd))
+        finally:
+            common.force_rmtree(sb)
+    return st
+
+
+def evaluate(st, sb, ents, lst, mine, now_ns, tree_desc):
+    if True:
         TB = 6
         cases, meta = [], {}
         for b in range(0, len(mine), TB):
@@ -157,13 +221,13 @@ def worker(job):
                     tests.append(args_for(kind, sg + str(n)))
             cid = "c%d" % b
             args = ["find", "d", "-sorted"] + lbl.label_args(tests)
-            cases.append((cid, args, NOW_NS))
+            cases.append((cid, args, now_ns))
             meta[cid] = (batch, args)
         res = common.run_find_inproc(cases, sb, sb)
         results = {}   # (kind, n) -> (less, equal, more) sets
         for cid, (batch, args) in meta.items():
             r = res[cid]
-            rp = {"args": args, "now_ns": NOW_NS, "tree": "lib/c14.py build()"}
+            rp = {"args": args, "now_ns": now_ns, "tree": tree_desc}
             if r.special or r.panic:
                 st.violate("panic-or-hang", None, {"args": args, "panic": r.panic, "special": r.special}, rp)
                 continue
@@ -178,7 +242,7 @@ def worker(job):
             for i, (kind, n) in enumerate(batch):
                 less, eq, more = (set(sel[3 * i]), set(sel[3 * i + 1]), set(sel[3 * i + 2]))
                 results[(kind, n)] = (less, eq, more)
-                f = measure(kind, lst)
+                f = measure(kind, lst, now_ns)
                 st.inc("triples")
                 st.inc("family:" + (kind if not kind.startswith("-size") else "-size"))
                 st.add("distinct", (kind, n))
@@ -193,7 +257,7 @@ def worker(job):
                         continue
                     want = "less" if v < n else ("eq" if v == n else "more")
                     got = "less" if p in less else ("eq" if p in eq else "more")
-                    if kind[1] in "am" and kind[2:] in ("time", "min") and v < 0:
+                    if kind[1] in "amc" and kind[2:] in ("time", "min") and v < 0:
                         st.inc("negative_age_evaluations_trichotomy_only")
                         continue
                     if want != got:
@@ -213,22 +277,22 @@ def worker(job):
                     st.violate("not-monotone", None, {"test": kind, "form": "+N", "N1": n1, "N2": n2, "gained": sorted(m2 - m1)[:4]}, {"kind": kind})
                 if not (l1 <= l2):
                     st.violate("not-monotone", None, {"test": kind, "form": "-N", "N1": n1, "N2": n2, "lost": sorted(l1 - l2)[:4]}, {"kind": kind})
-        if k == 0:
-            st.sample({"files": len(ents), "sizes": size_set()[:12], "triples": mine[:6]})
-    finally:
-        common.force_rmtree(sb)
-    return st
 
 
 def run(ctx):
     ctx.rule = ("files: sparse files of size 0,1,2 and k*u-1, k*u, k*u+1 for u in {1,2,512,2^10,2^20,2^30}, k in {1,2,3,1023,1024} up to 3GiB+1, plus 2^32, 2^33, 2^40, 2^62 (+-1) and 2^63-1; "
                 "hard-link groups 1-5; chown'ed files; files whose mtime/atime are (injected now) - age for ages around k*day and k*minute "
                 "incl. the future. Operands: around every file's rounded size per unit, 0/1/2 and 2^31..2^64-1; every triple (T -N, T N, T +N) "
-                "is evaluated in one run; distinct = (test with unit, N)")
+                "is evaluated in one run; plus rounds over random trees (log-uniform sparse sizes up to 2^63-1, random owners, ns-resolution "
+                "time stamps around a random injected clock, -ctime/-cmin included) with operands at and next to every measured value; "
+                "distinct = (test with unit, N)")
     ctx.assumptions = ["integer arithmetic on os.lstat records; injected clock via Dependencies::now()", "N >= 2^64 not used",
                        "negative ages judged for trichotomy/monotonicity only"]
     nw = common.NCPU
     ctx.pmap(worker, [(k, nw, ctx.seed, ctx.quick) for k in range(nw)])
+    rounds = 1 if ctx.quick else 150
+    ctx.pmap(random_worker, [(k, rounds, ctx.seed) for k in range(nw)])
+    ctx.require("random_rounds", nw)
     for key in ("family:-size", "family:-links", "family:-inum", "family:-uid", "family:-gid", "family:-mtime", "family:-amin",
                 "size_evaluations_needing_round_up", "monotonicity_pairs", "negative_age_evaluations_trichotomy_only"):
         ctx.require(key, 3)
